@@ -308,7 +308,7 @@ func budgetsFor(c *C11Case, S uint64, r *plan.Rand) (bs []uint64, exhaustive boo
 		exLimit = 4096
 		geoMax = 1 << 22
 		samples = 96
-		costCap = 40 << 20
+		costCap = 10 << 20
 	}
 	set := map[uint64]bool{}
 	add := func(n uint64) {
